@@ -37,7 +37,7 @@ def run(ctx):
     ctx.coverage.update({
         "traces_validated_against_impl": tot["traces"] + ftot["fixtures"],
         "samples": samples + fsamples,
-        "evaluations": tot["safety"] + fs.get("Safety", 0),
+        "evaluations": tot["safety"] + tot["per_op"].get("SafetyMax", 0) + fs.get("Safety", 0) + fs.get("SafetyMax", 0),
         "distinct_nontrivial": tot["safety_pos"] + fs.get("safety_pos", 0),
         "rule": "evaluations = find_safety calls judged (lattice: exact integer inequality s^2 <= true squared distance; "
                 "fixtures: 64 rays + sphere points per probe); distinct_nontrivial = calls that reported a strictly positive "
@@ -47,7 +47,9 @@ def run(ctx):
         "lattice": {k: tot[k] for k in ("traces", "calls", "safety", "safety_pos", "states", "exhaustive_worlds",
                                          "truncated_worlds", "other_clauses")},
         "lattice_worlds": len(files), "curved_worlds": len(curved),
-        "fixtures": {"fixtures": ftot["fixtures"], "safety_calls": fs.get("Safety", 0), "rays": fs.get("rays", 0),
+        "fixtures": {"fixtures": ftot["fixtures"], "safety_calls": fs.get("Safety", 0),
+                     "radius_limited_safety_calls": fs.get("SafetyMax", 0), "centre_or_axis_probes": fs.get("centre_probes", 0),
+                     "dev": ftot["dev"], "rays": fs.get("rays", 0),
                      "sphere_points": fs.get("sphere_pts", 0), "confirmed_nearest_boundary_bounds": fs.get("near_bounds", 0), "discarded": ftot["discarded"], "skipped": ftot["skipped"],
                      "other_clauses": ftot["other_clauses"]},
     })
@@ -66,4 +68,9 @@ def run(ctx):
         "fixtures: a ray 'travels at least the safety' is judged with relative tolerance 1e-9; sphere radius s(1-1e-6); "
         "oracle points within 1e-6 of a surface are discarded",
         "other-property clauses (C03.*) seen in the same traces are reported by C03, not here",
+        "both overloads are judged: find_safety() and the radius-limited find_safety(r) (lattice: r = 2, 6 at every interior "
+        "protocol state, worlds slab_asym / big_room2 / array_oversize hold points whose nearest boundary belongs to a shallower "
+        "level than the nearest face of the deepest one; fixtures: r below, above and far above the unlimited answer); planned "
+        "probes include points exactly at sphere centres / on cylinder axes (finding F-SAFE-1: named deviation "
+        "SafetyIgnoresCentredQuadric, scoped by the oracle's zero-gradient-face fact); a non-finite safety is an over-estimate",
     ]
